@@ -71,6 +71,9 @@ static struct packet outpkt;
 static struct packet inpkt;
 int outchunkresent = 0;
 
+/* When the current upstream chunk was last (re)sent */
+static time_t outchunktime = 0;
+
 /* My userid at the server */
 static char userid;
 static char userid_char;		/* used when sending (lowercase) */
@@ -377,6 +380,7 @@ send_chunk(int fd)
 		outpkt.sentlen);
 #endif
 
+	outchunktime = time(NULL);
 	send_query(fd, buf);
 }
 
@@ -1127,6 +1131,14 @@ client_tunnel(int tun_fd, int dns_fd)
 
 		if (i < 0)
 			err(1, "select");
+
+		if (i > 0 && is_sending() && outchunkresent >= 2 &&
+		    !FD_ISSET(dns_fd, &fds) && outchunktime + 1 < time(NULL)) {
+			/* Only tun packets (which are just dropped now) woke
+			   us up. Steady traffic on tun must not postpone the
+			   re-send timeout forever, handle it now. */
+			i = 0;
+		}
 
 		if (i == 0) {
 			/* timeout */
